@@ -412,9 +412,12 @@ impl Module {
             | Self::Shadowed(ShadowedModule { scope, .. }) => scope.clone(),
         };
 
-        if scope.variables.insert(name.node, value).is_none() {
+        // only variables the module already has can be assigned from outside
+        if !scope.variables.contains_key(name.node) {
             return Err(("Undefined variable.", name.span).into());
         }
+
+        scope.variables.insert(name.node, value);
 
         Ok(())
     }
